@@ -28,6 +28,9 @@ G = 4
 
 
 def cases(tier, seed):
+    for lens in ([1], [3, 0, 2], [100, 100, 100], [0, 300], [127, 1, 128, 1]):
+        for dt in (None, 'int64', 'uint8', 'int16', 'float32', 'float64'):
+            yield dict(kind='concat', lens=lens, dtype=dt)
     for n in range(10):
         for ini, fin in itertools.product((False, True), repeat=2):
             for off in (0, 5, -3):
@@ -42,7 +45,29 @@ def cases(tier, seed):
                             yield c
 
 
+def run_concat(c):
+    """menv.concat_to_arr builds its start offsets with cumsum: they are int64 running totals whatever element dtype is asked for"""
+    from abacusnbody.hod.menv import concat_to_arr
+    lens = c['lens']
+    lists = [[(i * 7 + j) % 100 for j in range(n)] for i, n in enumerate(lens)]
+    probs = []
+    kw = {} if c['dtype'] is None else dict(dtype=np.dtype(c['dtype']).type)
+    try:
+        res, starts = concat_to_arr(lists, **kw)
+    except Exception as e:
+        return dict(problems=[dict(sig='concat_to_arr:raises:' + type(e).__name__, msg=f'lens={lens} dtype={c["dtype"]}: {e}')], nt=[])
+    exp = np.array([x for ell in lists for x in ell], dtype=(np.int64 if c['dtype'] is None else c['dtype']))
+    es = np.concatenate([[0], np.cumsum(lens)]).astype(np.int64)
+    if not np.array_equal(np.asarray(starts).astype(np.int64), es) or np.asarray(starts).dtype.kind not in 'iu':
+        probs.append(dict(sig='concat_to_arr:starts', msg=f'lens={lens} dtype={c["dtype"]}: starts {np.asarray(starts).tolist()} ({np.asarray(starts).dtype}) expected {es.tolist()}'))
+    if np.asarray(res).shape != exp.shape or not np.array_equal(np.asarray(res), exp):
+        probs.append(dict(sig='concat_to_arr:values', msg=f'lens={lens} dtype={c["dtype"]}: {len(res)} elements, expected {len(exp)}'))
+    return dict(problems=probs, nt=[('concat', tuple(lens), c['dtype'])])
+
+
 def run(c):
+    if c.get('kind') == 'concat':
+        return run_concat(c)
     from abacusnbody.util import cumsum
     n, ini, fin, off = c['n'], c['ini'], c['fin'], c['off']
     vals = [(3 * i * i + 2 * i + 1) % 11 + 1 for i in range(n)]
